@@ -196,13 +196,29 @@ def sample : Prim (List UInt8) :=
   .dict [([65], .arr [.int 5, .str [97, 40, 98], .name [120, 32, 121], .ref 3 0, .real [50, 46, 53], .real [55]]),
          ([66, 35], .dict [])]
 
-example : Serialisable id txtEnv.parseReal sample ∧ WF sample ∧ vdepth sample ≤ maxDepth := by
+theorem sample_serialisable : Serialisable id txtEnv.parseReal sample ∧ WF sample ∧ vdepth sample ≤ maxDepth := by
   refine ⟨?_, ?_, by decide⟩
   · simp only [sample, Serialisable, SerialisableE, SerialisableL, and_true, true_and]
     refine ⟨by decide, by decide, ⟨?_, by decide⟩, ?_, by decide⟩
     · exact ⟨[], [50], [53], rfl, Or.inl rfl, by simp [PdfSyntax.Digits, PdfSyntax.isDig], by simp [PdfSyntax.Digits, PdfSyntax.isDig], Or.inl (by simp)⟩
     · exact ⟨[], [55], [], rfl, Or.inl rfl, by simp [PdfSyntax.Digits, PdfSyntax.isDig], by simp [PdfSyntax.Digits], Or.inl (by simp)⟩
   · simp [sample, WF, WFE, WFL, keysOf, utf8Valid]
+
+/-- the round-trip theorem applies to it -/
+example : ∃ body, serialize id sample = .ok body ∧
+    parseIndirectObject txtEnv (objFrame 12 0 body).toArray 1000 0 Flags.any =
+      .ok (((12, 0), sample), (objFrame 12 0 body).length - 1) := by
+  obtain ⟨body, h1, h2⟩ := parse_serialize_indirect txtEnv rfl id sample sample_serialisable.1 sample_serialisable.2.1
+    sample_serialisable.2.2 12 0 (by decide) (by decide)
+  refine ⟨body, h1, ?_⟩
+  have hsz : (objFrame 12 0 body).toArray.size ≤ 2147483647 := by
+    have : serialize id sample = .ok body := h1
+    have hb : body.length ≤ 200 := by
+      have e : (match serialize id sample with | .ok b => decide (b.length ≤ 200) | _ => false) = true := by decide +kernel
+      rw [this] at e; simpa using e
+    simp [objFrame, fmtNat, natDigitsAux, kwObj, kwEndobj]; omega
+  have := h2 hsz [] [] 1000 (by simp) (by decide)
+  simpa using this
 
 /-- the framed serialisation of `sample` is read back as `sample` by the model (evaluated by the kernel) -/
 example :
